@@ -67,13 +67,14 @@ def build_to_xml_event(u, te):
 """, pre_body="broadcast use axiom_to_string_string;\nproof { reveal(event_xml); }", e9=e9)
 
 
-def unit_ret(sf, path):
+def unit_ret(u, sf, path):
     """E7 (return value naming) for an `async fn` whose return type is implicit: this Verus build drops the
     postconditions of such a function at the awaiting call site unless the unit result is named.
     `fn f(..)` and `fn f(..) -> ()` are the same function."""
     it = sf.item(path, "fn")
     if it["output"] is not None:
         return []
+    u.rule("E7", "%s: implicit unit return type written out as `-> (r: ())` (named result; same function)" % path)
     return [(it["sig"][1], it["sig"][1], " -> (r: ())")]
 
 
@@ -85,7 +86,7 @@ def build_event_reader(u, er):
 """, e9=[("remove_file(&file)", None, "file: &PathBuf, " + TR, "&file, Tracked(tr)", "std::io::Result<()>",
           "    ensures final(tr).removed == old(tr).removed.push(*file), final(tr).same_uploads(*old(tr)),",
           dict(body="remove_file(file)", name="vx_e9_remove_file"))], pre_body="broadcast use group_fmt_telemetry;")
-    u.take_fn(er, "EventReader::send_data_to_wire_server", ret="", ghost=TR, sig_edits=unit_ret(er, "EventReader::send_data_to_wire_server"),
+    u.take_fn(er, "EventReader::send_data_to_wire_server", ret="", ghost=TR, sig_edits=unit_ret(u, er, "EventReader::send_data_to_wire_server"),
               ghost_calls=[("send_telemetry_data", None, "Tracked(tr)")], contract="""
         requires old(tr).wf(),
                  telemetry_data@.len() > 0 ==> xml_len(telemetry_data@) < LIMIT(),  // @C18.send_data_to_wire_server.pre.batch_smaller_than_64KiB
@@ -93,17 +94,17 @@ def build_event_reader(u, er):
                 final(tr).removed == old(tr).removed,
                 final(tr).batches == (if telemetry_data@.len() > 0 { old(tr).batches.push(telemetry_data@) } else { old(tr).batches }),  // @C18.send_data_to_wire_server.one_batch_per_nonempty_data
                 telemetry_data@.len() == 0 ==> final(tr).posts == old(tr).posts,  // @C18.send_data_to_wire_server.empty_batch_is_not_uploaded
-""", pre_body="broadcast use lemma_repeat_len, lemma_concat_push, lemma_xml_nonempty, group_fmt_telemetry;",
+""", pre_body="broadcast use lemma_fails_len, lemma_concat_push, lemma_xml_nonempty, group_fmt_telemetry;",
               loop_iter_names={0: "it"}, loop_attrs={0: "#[verifier::loop_isolation(false)] #[verifier::allow_complex_invariants]"}, loops={0: """
             invariant_except_break
-                tr.posts == old(tr).posts + repeat(xml_of(telemetry_data@), it.index@ as int),
+                tr.posts == old(tr).posts + fails(xml_of(telemetry_data@), it.index@ as int),  // @C18.send_data_to_wire_server.resent_only_after_failure
             invariant
                 it.seq().len() == 5,
-                tr.batches == old(tr).batches, tr.attempts == old(tr).attempts, tr.removed == old(tr).removed,
+                tr.batches == old(tr).batches, tr.attempts == old(tr).attempts, tr.last_ok == old(tr).last_ok, tr.removed == old(tr).removed,
             ensures
-                tr.posts == old(tr).posts + repeat(xml_of(telemetry_data@), tr.posts.len() - old(tr).posts.len()),
                 1 <= tr.posts.len() - old(tr).posts.len() <= 5,  // @C18.send_data_to_wire_server.at_most_5_attempts
-                tr.batches == old(tr).batches, tr.attempts == old(tr).attempts, tr.removed == old(tr).removed,
+                tr.posts == old(tr).posts + fails(xml_of(telemetry_data@), tr.posts.len() - old(tr).posts.len() - 1).push(Post { body: xml_of(telemetry_data@), ok: tr.posts.last().ok }),  // @C18.send_data_to_wire_server.same_document_each_attempt
+                tr.batches == old(tr).batches, tr.attempts == old(tr).attempts, tr.last_ok == old(tr).last_ok, tr.removed == old(tr).removed,
 """},
               e9=[("tokio::time::sleep(Duration::from_secs(15)).await", None, "", "", "", "", dict(is_async=True, name="vx_e9_sleep_15s", no_await=False)),
                   ("[0; 5]", None, "", "", "VxArrIter5", "    ensures vstd::std_specs::iter::IteratorSpec::remaining(&r).len() == 5,",
@@ -112,46 +113,68 @@ def build_event_reader(u, er):
             let k = tr.posts.len() - old(tr).posts.len();
             tr.batches = tr.batches.push(telemetry_data@);
             tr.attempts = tr.attempts.push(k);
+            tr.last_ok = tr.last_ok.push(tr.posts.last().ok);
             assert(tr.batches.drop_last() =~= old(tr).batches);
             assert(tr.attempts.drop_last() =~= old(tr).attempts);
+            assert(tr.last_ok.drop_last() =~= old(tr).last_ok);
         }""")])
+    # --- send_events: names of the parameters/locals the invariants talk about are read from the index, so that a renamed
+    #     local does not lose the proof (the statements themselves are located by their initialiser, not by their name)
+    from vxlib import Undecided
+    it = er.item("EventReader::send_events", "fn")
+    if len(it["params"]) != 3 or len(it["loops"]) != 2:
+        raise Undecided("send_events: expected 3 parameters and 2 loops")
+    EV, VM = it["params"][0]["name"], it["params"][2]["name"]
+
+    def local_by_init(init_text):
+        c = [l for l in it["lets"] if er.s(l["init"][0], l["init"][1]).strip() == init_text]
+        if len(c) != 1:
+            raise Undecided("send_events: expected exactly one `let .. = %s`, found %d" % (init_text, len(c)))
+        name = re.sub(r"^mut\s+", "", er.s(c[0]["pat"][0], c[0]["pat"][1]).strip())
+        if not re.match(r"^\w+$", name):
+            raise Undecided("send_events: unexpected pattern %r" % name)
+        return name, er.s(c[0]["span"][0], c[0]["span"][1])
+    TD, td_stmt = local_by_init("TelemetryData::new()")
+    FLAG, _ = local_by_init("true")
+    N = dict(EV=EV, VM=VM, TD=TD, FLAG=FLAG)
     ACCT = """
-                forall|t: TelemetryEvent| cnt(flat(tr.batches), t) + %s cnt(tevs(events@, vm), t) <= cnt(flat(old(tr).batches), t) + #[trigger] cnt(input, t),
-                forall|t: TelemetryEvent| cnt(flat(tr.batches), t) + %s cnt(tevs(events@, vm), t) < cnt(flat(old(tr).batches), t) + #[trigger] cnt(input, t) ==> oversize_alone(t),
-"""
-    u.take_fn(er, "EventReader::send_events", ret="", ghost=TR, sig_edits=unit_ret(er, "EventReader::send_events"),
-              ghost_calls=[("Self::send_data_to_wire_server", None, "Tracked(tr)")], contract="""
+                forall|t: TelemetryEvent| cnt(flat(tr.batches), t) + %%s cnt(tevs(%(EV)s@, vm), t) <= cnt(flat(old(tr).batches), t) + #[trigger] cnt(input, t),
+                forall|t: TelemetryEvent| cnt(flat(tr.batches), t) + %%s cnt(tevs(%(EV)s@, vm), t) < cnt(flat(old(tr).batches), t) + #[trigger] cnt(input, t) ==> oversize_alone(t),
+""" % N
+    IN_DATA = "cnt(%(TD)s@, t) +" % N
+    u.take_fn(er, "EventReader::send_events", ret="", ghost=TR, sig_edits=unit_ret(u, er, "EventReader::send_events"),
+              ghost_calls=[("Self::send_data_to_wire_server", None, "Tracked(tr)")], contract=("""
         requires old(tr).wf(),
         ensures final(tr).wf(),
                 final(tr).removed == old(tr).removed,
                 old(tr).batches.len() <= final(tr).batches.len() && final(tr).batches.subrange(0, old(tr).batches.len() as int) == old(tr).batches,
-                delivered_at_most_once(tevs(events@, *vm_meta_data), new_batches(*old(tr), *final(tr))),  // @C18.send_events.each_event_in_at_most_one_batch
-                dropped_only_if_oversize(tevs(events@, *vm_meta_data), new_batches(*old(tr), *final(tr))),  // @C18.send_events.dropped_only_if_too_large_alone
+                delivered_at_most_once(tevs(%(EV)s@, *%(VM)s), new_batches(*old(tr), *final(tr))),  // @C18.send_events.each_event_in_at_most_one_batch
+                dropped_only_if_oversize(tevs(%(EV)s@, *%(VM)s), new_batches(*old(tr), *final(tr))),  // @C18.send_events.dropped_only_if_too_large_alone
                 forall|i: int| 0 <= i < new_batches(*old(tr), *final(tr)).len() ==> batch_ok(#[trigger] new_batches(*old(tr), *final(tr))[i]),  // @C18.send_events.every_batch_nonempty_and_smaller_than_64KiB
-""", pre_body="""broadcast use group_send_events;
-let ghost vm = *vm_meta_data;
-let ghost input = tevs(events@, vm);
-proof { assert(old(tr).batches.subrange(0, old(tr).batches.len() as int) =~= old(tr).batches); }""",
+""" % N), pre_body=("""broadcast use group_send_events;
+let ghost vm = *%(VM)s;
+let ghost input = tevs(%(EV)s@, vm);
+proof { assert(old(tr).batches.subrange(0, old(tr).batches.len() as int) =~= old(tr).batches); }""" % N),
               loop_attrs={0: "#[verifier::loop_isolation(false)]", 1: "#[verifier::loop_isolation(false)] #[verifier::allow_complex_invariants]"},
               loops={0: """
             invariant
                 tr.wf(),
                 tr.removed == old(tr).removed,
-                old(tr).batches.len() <= tr.batches.len() && tr.batches.subrange(0, old(tr).batches.len() as int) == old(tr).batches,""" + ACCT % ("", "") + """
-            decreases events@.len(),  // @C18.send_events.terminates
-""", 1: """
+                old(tr).batches.len() <= tr.batches.len() && tr.batches.subrange(0, old(tr).batches.len() as int) == old(tr).batches,""" + ACCT % ("", "") + ("""
+            decreases %(EV)s@.len(),  // @C18.send_events.terminates
+""" % N), 1: ("""
                 invariant
                     n0 >= 1,
-                    add_more_events ==> events@.len() + telemetry_data@.len() == n0,
-                    !add_more_events ==> events@.len() < n0,
-                    telemetry_data@.len() >= 1 ==> xml_len(telemetry_data@) < LIMIT(),""" + ACCT % ("cnt(telemetry_data@, t) +", "cnt(telemetry_data@, t) +") + """
-                ensures events@.len() < n0,
-                decreases events@.len() + (if add_more_events { 1int } else { 0int }),  // @C18.send_events.batch_filling_terminates
-"""},
-              hints=[("let mut telemetry_data = TelemetryData::new();", None, "before", "let ghost n0 = events@.len();"),
-                     ("while !events.is_empty()", 0, "after", "proof { lemma_new_batches(*old(tr), *tr, input); }")],
+                    %(FLAG)s ==> %(EV)s@.len() + %(TD)s@.len() == n0,
+                    !%(FLAG)s ==> %(EV)s@.len() < n0,
+                    %(TD)s@.len() >= 1 ==> xml_len(%(TD)s@) < LIMIT(),""" % N) + ACCT % (IN_DATA, IN_DATA) + ("""
+                ensures %(EV)s@.len() < n0,
+                decreases %(EV)s@.len() + (if %(FLAG)s { 1int } else { 0int }),  // @C18.send_events.batch_filling_terminates
+""" % N)},
+              hints=[(td_stmt, None, "before", "let ghost n0 = %(EV)s@.len();" % N),
+                     (er.s(it["loops"][0]["span"][0], it["loops"][0]["body"][0]), 0, "after", "proof { lemma_new_batches(*old(tr), *tr, input); }")],
               e9=[("serde_json::to_string(&event)", None, "event: &Event", "&event", "core::result::Result<String, serde_json::Error>", "", dict(body="serde_json::to_string(event)", name="vx_e9_event_to_json")),
-                  ("vm_meta_data.clone()", None, "vm_meta_data: &VmMetaData", "vm_meta_data", "VmMetaData", "    ensures r == *vm_meta_data,", dict(name="vx_e9_vm_meta_data_clone"))])
+                  ("%(VM)s.clone()" % N, None, "vm_meta_data: &VmMetaData", VM, "VmMetaData", "    ensures r == *vm_meta_data,", dict(body="vm_meta_data.clone()", name="vx_e9_vm_meta_data_clone"))])
     u.take_fn(er, "EventReader::process_events_and_clean", ghost=TR,
               ghost_calls=[("Self::send_events", None, "Tracked(tr)"), ("Self::clean_files", None, "Tracked(tr)")], contract="""
         requires old(tr).wf(),
@@ -246,8 +269,8 @@ def build(u):
             u.take(wsc, "WireServerClient", "struct", extra_attrs="#[verifier::external_body]")
             with u.impl_(wsc, "WireServerClient"):
                 u.take_fn(wsc, "WireServerClient::send_telemetry_data", external_body=True, ghost="Tracked(tr): Tracked<&mut Trace>", contract="""
-        ensures final(tr).posts == (if xml_data@.len() == 0 { old(tr).posts } else { old(tr).posts.push(xml_data@) }),
-                final(tr).batches == old(tr).batches, final(tr).attempts == old(tr).attempts, final(tr).removed == old(tr).removed,
+        ensures final(tr).posts == (if xml_data@.len() == 0 { old(tr).posts } else { old(tr).posts.push(Post { body: xml_data@, ok: r is Ok }) }),
+                final(tr).batches == old(tr).batches, final(tr).attempts == old(tr).attempts, final(tr).last_ok == old(tr).last_ok, final(tr).removed == old(tr).removed,
 """)
 
     with u.mod("telemetry"):
